@@ -57,6 +57,19 @@ class Marker:
     """Plain mixin (not a graph class)."""
 
 
+class EqVertex(Vertex):
+    """
+    Distinct vertices that compare EQUAL (value __eq__/__hash__ on `key`).  Only used where the property
+    itself speaks of identity ("the opposite end"): neighbors() / find_links() on a link joining two twins.
+    """
+
+    def __eq__(self, other):
+        return isinstance(other, EqVertex) and getattr(self, "key", None) == getattr(other, "key", None)
+
+    def __hash__(self):
+        return hash(getattr(self, "key", None))
+
+
 class DSub(DirectedEdge):
     pass
 
@@ -87,6 +100,20 @@ class FalsyUniverse(Universe):
         return 0
 
 
+class RenamedEdge(DirectedEdge):
+    """A user edge class whose end parameters are not called v1 / v2."""
+
+    def __init__(self, src=None, dst=None, *, uid=None, attributes=None):
+        super().__init__(src, dst, uid=uid, attributes=attributes)
+
+
+class PosOnlyEdge(UnDirectedEdge):
+    """A user edge class whose end parameters are positional-only."""
+
+    def __init__(self, a=None, b=None, /, *, uid=None, attributes=None):
+        super().__init__(a, b, uid=uid, attributes=attributes)
+
+
 class OtherLink(TwoEndedLink):
     """A two-ended link that is neither directed nor undirected."""
 
@@ -101,7 +128,7 @@ class MultiLink(Link):
 
 VERTEX_CLASSES = {
     c.__name__: c
-    for c in (Vertex, VSub, VSubSub, FalsyVertex, EmptyVertex, Universe, VPlain, VFancy, VBoth)
+    for c in (Vertex, VSub, VSubSub, FalsyVertex, EmptyVertex, Universe, VPlain, VFancy, VBoth, EqVertex)
 }
 EDGE_CLASSES = {
     c.__name__: c
@@ -113,6 +140,8 @@ EDGE_CLASSES = {
         USub,
         MixEdge,
         FalsyEdge,
+        RenamedEdge,
+        PosOnlyEdge,
         OtherLink,
         OtherLink2,
         TwoEndedLink,
@@ -126,8 +155,8 @@ ALL_CLASSES.update(LINK_CLASSES)
 ALL_CLASSES["UniverseLaws"] = UniverseLaws
 ALL_CLASSES["FalsyUniverse"] = FalsyUniverse
 
-DIRECTED_NAMES = ("DirectedEdge", "DSub", "DSubSub", "MixEdge", "FalsyEdge")
-UNDIRECTED_NAMES = ("UnDirectedEdge", "USub")
+DIRECTED_NAMES = ("DirectedEdge", "DSub", "DSubSub", "MixEdge", "FalsyEdge", "RenamedEdge")
+UNDIRECTED_NAMES = ("UnDirectedEdge", "USub", "PosOnlyEdge")
 OTHER_NAMES = ("OtherLink", "OtherLink2", "TwoEndedLink")
 
 
@@ -218,6 +247,17 @@ class FalsyCallable:
 f_falsy_callable = FalsyCallable(2)
 f_partial = functools.partial(_at_least(2))
 
+def f_reentrant(e, v):
+    """Pure, but runs a nested recursive traversal while the outer traversal is in progress."""
+    from edgegraph.traversal import depthfirst
+
+    try:
+        seen = depthfirst.dft_recursive(None, v, direction_sensitive=1, unknown_handling=1)
+    except RecursionError:  # pragma: no cover
+        return True
+    return len(seen) >= 1 and getattr(e, "tag", 0) % 4 != 3
+
+
 NB_FILTERS = {
     "none": None,
     "accept": f_accept,
@@ -232,6 +272,7 @@ NB_FILTERS = {
     "tagmod3": f_tagmod3,
     "falsy_callable": f_falsy_callable,
     "partial": f_partial,
+    "reentrant": f_reentrant,
 }
 
 
